@@ -86,7 +86,7 @@ bool SameUndo(const CBlockUndo& a, const CBlockUndo& b)
 } // namespace
 
 VERIF_TARGET(c17_blockstore, nullptr, 48, 360,
-             "history of 2-10 blocks (250 B..70 KiB via coinbase padding, 0-3 generated spends, on the tip or on a fork 1-2 back => undo written out of order "
+             "35% of cases with on-disk DBs and clean RESTARTS (flush, new node on a copy of the datadir, blocks re-registered) incl. the shape fork stored -> flush -> PreciousBlock (undo only) -> restart -> more connects; history of 2-10 blocks (250 B..70 KiB via coinbase padding, 0-3 generated spends, on the tip or on a fork 1-2 back => undo written out of order "
              "after reorgs) on a node with 64 KiB block files; all block and undo records are read back after every step against own serialization, raw "
              "de-obfuscated file bytes and the model's spent coins; then 0-6 raw-file faults (flip in magic / length / header / tx bytes / undo body / "
              "undo checksum, truncate, zero tail) each followed by a full read-back with the admissible outcomes derived from a byte diff; finally a "
@@ -98,21 +98,31 @@ VERIF_TARGET(c17_blockstore, nullptr, 48, 360,
     const bool connect_test = s.chance(80);
     const unsigned nfaults = connect_test ? 0 : s.range<unsigned>(0, 6);
     const unsigned nblk = s.range<unsigned>(2, 10);
+    // restart cases: block-tree DB and coins DB on disk, the node is shut down cleanly (flush) and started again on a copy of its datadir
+    const bool with_restart = s.chance(90);
     ChainSimOpts o;
     o.fast_prune = true;
-    ChainSim sim(o);
+    if (with_restart) { o.coins_db_in_memory = false; o.block_tree_db_in_memory = false; }
+    auto simp = std::make_unique<ChainSim>(o);
+#define sim (*simp)
+#define blockman (simp->chainman().m_blockman)
     auto base = sim.LoadBase(104);
-    const std::filesystem::path dir = sim.m_args.GetBlocksDirPath();
+    std::vector<std::shared_ptr<const CBlock>> all_blocks; // topological order, to re-register with the ledger of a restarted node
+    for (auto& h : base) all_blocks.push_back(sim.block_store.at(h));
+    std::filesystem::path dir = sim.m_args.GetBlocksDirPath();
     std::array<unsigned char, 8> key{};
-    {
+    auto read_key = [&]() {
+        std::array<unsigned char, 8> k{};
         FILE* f = fopen((dir / "xor.dat").string().c_str(), "rb");
         VCHECK(f != nullptr, "c17.setup", "no xor.dat");
-        size_t n = fread(key.data(), 1, 8, f);
+        size_t n = fread(k.data(), 1, 8, f);
         fclose(f);
         VCHECK(n == 8, "c17.setup", "short xor.dat");
-    }
+        return k;
+    };
+    key = read_key();
     const auto magic = Params().MessageStart();
-    auto& blockman = sim.chainman().m_blockman;
+    int restarts = 0, blocks_after_restart = 0;
 
     std::vector<Rec> recs;
     std::map<uint256, size_t> rec_of;
@@ -244,10 +254,12 @@ VERIF_TARGET(c17_blockstore, nullptr, 48, 360,
     };
 
     // ---- history
-    for (unsigned bi = 0; bi < nblk; ++bi) {
+    unsigned bi = 0;
+    auto step = [&](int forced_psel) {
+        ++bi;
         uint256 tip = sim.TipHash();
         uint256 parent = tip;
-        unsigned psel = s.pick<unsigned>({0, 0, 4, 3, 0, 5, 3, 4});
+        unsigned psel = forced_psel >= 0 ? unsigned(forced_psel) : s.pick<unsigned>({0, 0, 4, 3, 0, 5, 3, 4});
         if (psel == 3) { // extend the newest block that never got connected: its branch overtakes the tip => reorg, undo written out of height order
             for (size_t i = recs.size(); i-- > 0;) if (!recs[i].connected) { parent = recs[i].hash; break; }
         }
@@ -283,6 +295,8 @@ VERIF_TARGET(c17_blockstore, nullptr, 48, 360,
         auto dl = sim.Deliver(blk);
         VCHECK(dl.processed, "c17.setup", "valid block refused", dl.verdict ? StateStr(*dl.verdict) : "");
         add_rec(blk);
+        all_blocks.push_back(blk);
+        if (restarts) { blocks_after_restart++; st.cls("block-written-after-restart"); }
         uint256 nt = sim.TipHash();
         bool reorg = nt != tip && sim.ledger.At(nt).prev != tip;
         if (reorg) { undo_after_reorg++; st.cls("reorg"); }
@@ -290,6 +304,67 @@ VERIF_TARGET(c17_blockstore, nullptr, 48, 360,
         st.mix(uint64_t(psel * 16 + ntx)); st.mix(uint64_t(recs.back().ser.size() / 1000));
         st.note("block h=", height, " size=", recs.back().ser.size(), " ntx=", ntx, parent == tip ? " on tip" : " fork", nt == blk->GetHash() ? " ->tip" : "", reorg ? " (reorg)" : "");
         check_all("history", /*pristine=*/true);
+    };
+    auto flush = [&]() {
+        { LOCK(cs_main); sim.chainstate().ForceFlushStateToDisk(/*wipe_cache=*/false); }
+        st.mix(uint64_t(31)); st.cls("flush"); st.note("flush");
+    };
+    // make a stored-but-unconnected block of the tip's height the tip without writing any block: only undo data is written
+    auto precious_fork = [&]() {
+        uint256 tip = sim.TipHash();
+        int th = sim.ledger.At(tip).height;
+        for (size_t i = recs.size(); i-- > 0;) {
+            if (recs[i].connected || sim.ledger.At(recs[i].hash).height != th) continue;
+            CBlockIndex* pi = WITH_LOCK(cs_main, return blockman.LookupBlockIndex(recs[i].hash));
+            BlockValidationState state;
+            sim.chainstate().PreciousBlock(state, pi);
+            sim.SyncSignals();
+            if (sim.TipHash() == recs[i].hash) { undo_after_reorg++; st.cls("reorg"); st.cls("precious-reorg"); }
+            mark_connected();
+            st.mix(uint64_t(32)); st.note("precious ", recs[i].hash.ToString().substr(0, 8), sim.TipHash() == recs[i].hash ? " ->tip (undo written, no block written)" : "");
+            check_all("precious", /*pristine=*/true);
+            return;
+        }
+    };
+    // clean shutdown (full flush) and start of a new node on a copy of the datadir; everything must read back as before
+    auto restart = [&]() {
+        if (!with_restart || restarts >= 2) return;
+        { LOCK(cs_main); sim.chainstate().ForceFlushStateToDisk(/*wipe_cache=*/true); }
+        uint256 tip_before = sim.TipHash();
+        std::filesystem::path img = std::filesystem::temp_directory_path() / strprintf("vh_c17_img_%d", int(getpid()));
+        std::filesystem::remove_all(img);
+        std::filesystem::copy(std::filesystem::path(sim.m_args.GetDataDirNet()), img, std::filesystem::copy_options::recursive);
+        simp.reset();
+        ChainSimOpts o2 = o;
+        o2.before_load = [img](const fs::path& d) { std::filesystem::copy(img, std::filesystem::path(d), std::filesystem::copy_options::recursive | std::filesystem::copy_options::overwrite_existing); };
+        simp = std::make_unique<ChainSim>(o2);
+        std::filesystem::remove_all(img);
+        for (auto& b : all_blocks) sim.Register(b);
+        dir = sim.m_args.GetBlocksDirPath();
+        VCHECK(read_key() == key, "c17.setup", "xor key changed over a restart");
+        restarts++;
+        st.steps++;
+        VCHECK(sim.TipHash() == tip_before, "c17.restart-lost-tip", "tip after clean restart", sim.TipHash().ToString(), "before", tip_before.ToString());
+        st.mix(uint64_t(33)); st.cls("restart"); st.note("clean restart (tip h=", sim.TipHeight(), ")");
+        check_all("restart", /*pristine=*/true);
+    };
+    for (unsigned k = 0; k < nblk; ++k) {
+        unsigned inter = s.range<unsigned>(0, 9);
+        if (inter == 7) flush();
+        else if (inter == 8) precious_fork();
+        else if (inter == 9) restart();
+        step(-1);
+    }
+    if (with_restart) {
+        // the shape that separates "undo written" from "block written" across index flushes and a restart:
+        // fork block stored -> (flush) -> it becomes tip through PreciousBlock (undo only) -> clean restart -> more blocks connected in the same file
+        step(4);
+        if (s.chance(200)) flush();
+        if (s.chance(200)) precious_fork();
+        restart();
+        unsigned more = s.range<unsigned>(1, 3);
+        for (unsigned k = 0; k < more; ++k) step(s.chance(200) ? 0 : -1);
+        if (blocks_after_restart) st.cls("undo-written-after-restart");
     }
     if (files_used >= 2) st.cls("multi-file");
 
@@ -403,5 +478,7 @@ VERIF_TARGET(c17_blockstore, nullptr, 48, 360,
         }
     }
     st.nontrivial = files_used >= 2 && undo_after_reorg > 0 && (regions_hit.size() >= 2 || connect_done);
-    st.note("files=", files_used, " reorgs=", undo_after_reorg, " faults=", faults);
+    st.note("files=", files_used, " reorgs=", undo_after_reorg, " faults=", faults, " restarts=", restarts);
+#undef sim
+#undef blockman
 }
